@@ -202,6 +202,18 @@ def run(ctx):
                 shape_ok = False
         if shape_ok is not None:
           ctx.check(shape_ok and len(rets) == 1, "R13.2", h, "membership-sum", "has_option_with_name returns %s - not the membership of the name in every kind" % [fmt(r)[:90] for r in rets], h)
+        # the name that is looked up is the name that was asked for - in every kind (a transformed copy, e.g. with a `no-` prefix cut off,
+        # leaves the literal name unprotected in that kind)
+        hp = h.params[0]["name"] if h.params else None
+        lookups = [n for _, _, e in h.all_elems() if e.get("expr") is not None for n in walk(e["expr"])
+                   if isinstance(n, dict) and n.get("k") == "call" and short(n.get("name") or "") in ("count", "find", "at", "contains") and len(n.get("args", [])) == 1]
+        for n in lookups:
+            a = ir.unwrap(n["args"][0])
+            while isinstance(a, dict) and a.get("k") in ("cast", "construct") and (a.get("e") is not None or len(a.get("args", [])) == 1):
+                a = ir.unwrap(a.get("e") if a.get("e") is not None else a["args"][0])
+            ctx.check(isinstance(a, dict) and a.get("k") == "ref" and a.get("decl") == "param:%s" % hp, "R13.2", h, "asks-for-the-declared-name@%s" % (n.get("ln", 0) - h.line),
+                      "has_option_with_name(%s) looks up `%s` in %s - not the name it was asked about: the literal name is not protected there and can be declared a second time"
+                      % (hp, fmt(a)[:60], fmt(n.get("this"))[:40]), (h, n.get("ln")), why_ok="%s(%s)" % (short(n.get("name") or ""), hp))
         # derived state: parser members read here must be maintained by the declaration functions
         pfields = class_fields(prog, NS + "parser")
         read = set()
@@ -393,6 +405,18 @@ def run(ctx):
                         if g.is_noreturn(b) and ins:
                             r, _ = logic.entails(INg[b], Not(("a", "%s%s.second" % ("", ins[0][0]))), lg.axioms)
                             ctx.check(r is True, "R13.4", g, "raise-iff-insertion-failed:" + k, "the duplicate-letter error is not tied to a failed insertion", g)
+        # what the consistency check refuses, it refuses for a duplicate letter: a raise in its own body (outside the visitors) under any
+        # other condition makes a configuration unparsable that the setters accepted (every parse() then fails, whatever the command line)
+        INc, _bc = fe.analyse(cpc)
+        for b in sorted(INc):
+            if not cpc.is_noreturn(b):
+                continue
+            facts_b = INc[b]
+            tied = any(logic.entails(facts_b, Not(("a", a)), lg.axioms)[0] is True for g0 in facts_b for a in logic.atoms_of(g0) if a.endswith(".second"))
+            ctx.check(tied, "R13.4", cpc, "refuses-only-duplicate-letters@B%s" % b,
+                      "check_parser_consistency() raises under %s - not a failed insertion into the letter set: a parser configured through its own setters "
+                      "(greedy positionals, an accepted count, ...) is refused on every parse, also for command lines the configuration admits"
+                      % ([logic.show(x) for x in facts_b][:4]), (cpc, cpc.term(b).get("ln")))
         ctx.check(kinds_seen == set(kind_maps), "R13.4", cpc, "all-kinds-checked", "kinds whose letters are not checked: %s" % sorted(set(kind_maps) - kinds_seen), cpc)
         # for_each_option uses every collector
         feo = [f for f in prog.find(NS + "parser::for_each_option") if f.has_cfg]
